@@ -45,6 +45,9 @@ type c12Step struct {
 	UTXOs  []c12UTXO `json:"utxos,omitempty"`
 	Target string    `json:"target,omitempty"`
 	Delta  int64     `json:"delta,omitempty"`
+	// Requote: while it answers this call the supplier files new rates in the very quote
+	// Fund was given (a wallet refreshing its miner quote); the amounts are sized for them
+	Requote *mQuote `json:"requote,omitempty"`
 }
 
 type c12In struct {
@@ -59,6 +62,7 @@ type c12Call struct {
 	Batch   []c12UTXO // as handed to the library (amounts resolved)
 	Err     error
 	Kind    string
+	Requote *refmoney.Quote // the rates in force from this call on
 }
 
 var errC12Supplier = errors.New("harness supplier failure")
@@ -71,6 +75,7 @@ type c12Supplier struct {
 	afterEnd    int
 	ctxSeen     context.Context
 	ctxMismatch bool
+	fq          *bt.FeeQuote
 }
 
 func (s *c12Supplier) next(ctx context.Context, deficit uint64) ([]*bt.UTXO, error) {
@@ -91,6 +96,15 @@ func (s *c12Supplier) next(ctx context.Context, deficit uint64) ([]*bt.UTXO, err
 	}
 	st := &s.in.Steps[k]
 	call := c12Call{Deficit: deficit, Kind: st.Kind}
+	if st.Requote != nil && s.fq != nil && st.Requote.inDomain() {
+		nq := *st.Requote
+		mk := func(t bt.FeeType, sat, by int) *bt.Fee {
+			return &bt.Fee{FeeType: t, MiningFee: bt.FeeUnit{Satoshis: sat, Bytes: by}, RelayFee: bt.FeeUnit{Satoshis: sat, Bytes: by}}
+		}
+		s.fq.AddQuote(bt.FeeTypeStandard, mk(bt.FeeTypeStandard, nq.StdSat, nq.StdBytes)).AddQuote(bt.FeeTypeData, mk(bt.FeeTypeData, nq.DataSat, nq.DataBytes))
+		rq := nq.ref()
+		s.q, call.Requote = rq, &rq
+	}
 	var out []*bt.UTXO
 	if st.Kind == "batch" || st.Kind == "error+batch" {
 		batch := make([]c12UTXO, len(st.UTXOs))
@@ -310,7 +324,7 @@ func c12Make(r *prng.R) *c12In {
 		case k < 7:
 			g.Script = dataScript(r, r.Bool(), r.Intn(100))
 		case k < 8:
-			g.Script = dataScript(r, r.Bool(), prng.Pick(r, []int{-1, 0, 255, 256, 2000}))
+			g.Script = dataScript(r, r.Bool(), prng.Pick(r, []int{-1, 0, 255, 256, 2000, 16385, 20000, 40000}))
 		case k < 9:
 			g.Script = nonDataScript(r, 1+r.Intn(50))
 		default:
@@ -401,6 +415,15 @@ func c12Make(r *prng.R) *c12In {
 					u.Value = gen.Sats(r) % 1_000_000_000_000
 				}
 				st.UTXOs = append(st.UTXOs, u)
+			}
+			if st.Kind == "batch" && k%5 == 2 { // the supplier also refreshes the quote Fund is working with
+				nq := mQuote{StdSat: in.Quote.StdSat*3 + 1, StdBytes: in.Quote.StdBytes, DataSat: in.Quote.DataSat*2 + 5, DataBytes: in.Quote.DataBytes}
+				if k%2 == 0 {
+					nq = mQuote{StdSat: in.Quote.StdSat / 2, StdBytes: in.Quote.StdBytes + 1, DataSat: in.Quote.DataSat / 3, DataBytes: in.Quote.DataBytes}
+				}
+				if nq.inDomain() {
+					st.Requote = &nq
+				}
 			}
 			if n > 0 && st.Kind == "batch" && r.Chance(2, 5) {
 				st.Target = "cover"
@@ -498,7 +521,7 @@ func c12Judge(c *mon.Ctx, in *c12In) {
 	q := in.Quote.ref()
 	before := takeSnap(tx)
 	ctx := context.WithValue(context.Background(), c12CtxKey{}, "c12")
-	sup := &c12Supplier{in: in, model: before.ref(), q: q, ctxSeen: ctx}
+	sup := &c12Supplier{in: in, model: before.ref(), q: q, ctxSeen: ctx, fq: fq}
 	var ferr error
 	returned := c.Try("bt.(*Tx).Fund", func() { ferr = tx.Fund(ctx, fq, sup.next) })
 	after := takeSnap(tx)
@@ -583,6 +606,7 @@ func c12Judge(c *mon.Ctx, in *c12In) {
 		}
 		cl := &hist[k]
 		c.Count("deficit-argument:compared")
+		requoted := cl.Requote != nil
 		if bigU(cl.Deficit).Cmp(d) != 0 {
 			which := "first-call"
 			if k > 0 {
@@ -612,6 +636,10 @@ func c12Judge(c *mon.Ctx, in *c12In) {
 			consumed = append(consumed, u)
 		}
 		prev := d
+		if requoted { // the supplier filed new rates while answering: they hold from here on
+			q = *cl.Requote
+			c.Count("quote-refreshed-by-the-supplier-during-Fund")
+		}
 		var derr2 error
 		d, derr2 = model.Deficit(q)
 		if derr2 != nil { // the batch brought an input whose final size cannot be estimated: funding cannot go on
